@@ -36,6 +36,8 @@ structure Ops (E X : Type) where
   fromU64 : Nat → X
   /-- `Ctx::hash_to_exp` -/
   hashToExp : Bytes → X
+  /-- `util::hasher()` applied to a byte string (SHA-512 for every back-end) -/
+  hash : Bytes → Bytes
   /-- borsh codecs of elements and exponents (decoding validates) -/
   codecE : Codec E
   codecX : Codec X
